@@ -135,6 +135,29 @@ def rule_R2(ctx, f):
             ctx.ob(rid, bld.split("::")[-1] + "|child", len(b.calls_to(child)) == 1 and b.term_local(0) == b.calls_to(child)[0].result_term(), "%s must build %s" % (bld, child), site=b.raw["span"]["at"])
 
 
+def rule_R4(ctx, f):
+    rid = "R4"
+    ctx.rule(rid, "the declared type of a family is set only by the collector that produced its samples: set_field_type (and direct writes of the type field) occur only in "
+                  "`collect` functions of collectors; gather and the registry never rewrite a family's type")
+    callers = {}
+    n = 0
+    for k in f.order:
+        b = f.bodies[k]
+        if b.path.startswith("prometheus::proto::") or b.path.startswith("prometheus::proto_ext::") or b.path.startswith("prometheus::plain_model::") or "::tests::" in b.path:
+            continue
+        for c in b.calls():
+            if c.matches(["set_field_type", "MetricFamily::set_field_type", "set_type_", "mut_field_type", "clear_field_type", "clear_type_"]):
+                n += 1
+                callers.setdefault(strip_generics(b.path), []).append(c)
+    bad = {p: cs for p, cs in callers.items() if not (p.endswith("::collect") or p.endswith("Collector>::collect"))}
+    ctx.floor(rid, "set_field_type call sites", n, 4)
+    for p, cs in sorted(bad.items()):
+        ctx.ob(rid, p + "|set_field_type", False,
+               "%s rewrites a family's declared type; the samples keep the payload their collector filled, so the family can be declared one type while carrying another" % p, site=cs[0].span)
+    if not bad:
+        ctx.ob(rid, "only-collectors-declare-types", True, "%d set_field_type sites, all inside collect() of a collector" % n)
+
+
 def rule_R3(ctx, f):
     from . import text_common as tc
     tc.rule_arm_payload(ctx, f, "R3")
@@ -148,6 +171,7 @@ def run(ctx):
         "carries a payload of the other type")))
     ctx.run_rule("R2", rule_R2, f)
     ctx.run_rule("R3", rule_R3, f)
+    ctx.run_rule("R4", rule_R4, f)
     if ctx.tier == "thorough":
         g = ctx.facts("plain")
         ctx.run_rule("R2@plain", lambda c: rule_R2(c, g))
